@@ -1354,6 +1354,22 @@ impl C12 {
                 }
             }
         }
+        // every connection the node still serves is registered, under its own address: an entry that disappears while the
+        // connection is alive lets the same identity in a second time and frees a quota slot that is still in use
+        for (c, lc) in &ns.live {
+            if lc.abort_after_close || lc.task.handle.is_finished() {
+                continue;
+            }
+            let idx = match (lc.net, lc.dir) { (Net::Gossip, Dir::In) => 0, (Net::Gossip, Dir::Out) => 1, (Net::Consensus, Dir::In) => 2, _ => 3 };
+            if !p[idx].iter().any(|e| e.1 == *c) {
+                let (net, dir) = names[idx];
+                out.oracle_fail(
+                    &format!("node/live-connection-unregistered/{net}/{dir}"),
+                    &format!("connection {c} is still being served but its identity is no longer registered in the pool (pool: {:?})", p[idx]),
+                    self.case_input(),
+                );
+            }
+        }
         let dyn_in = p[0].iter().filter(|e| !ns.static_in.contains(&(e.0 as usize))).count() as u64;
         if dyn_in > ns.dyn_limit {
             out.oracle_fail("quota/gossip/inbound", &format!("{dyn_in} non-static inbound connections, limit {}", ns.dyn_limit), self.case_input());
